@@ -462,6 +462,28 @@ func checkProbeForwarders(r *core.Result, prog *core.Program, pk *packages.Packa
 			if isIf && name == "Unmarshal" {
 				// the reset statement itself: if r, ok := msg.(interface{ Reset() }); ok { r.Reset() }
 				if resetPos.IsValid() && is.Pos() <= resetPos && resetPos < is.End() && !returnsAnything(is.Body.List) {
+					// it runs exactly when the assertion succeeded and calls Reset on the asserted value (or csproto.Reset(msg))
+					okShape := false
+					if as, ok := is.Init.(*ast.AssignStmt); ok && len(as.Lhs) == 2 && is.Else == nil {
+						vID, _ := as.Lhs[0].(*ast.Ident)
+						okID, _ := as.Lhs[1].(*ast.Ident)
+						condID, _ := is.Cond.(*ast.Ident)
+						if vID != nil && okID != nil && condID != nil && info.Uses[condID] == info.Defs[okID] && len(is.Body.List) == 1 {
+							if es, ok := is.Body.List[0].(*ast.ExprStmt); ok {
+								if c, ok := es.X.(*ast.CallExpr); ok {
+									if se, ok := c.Fun.(*ast.SelectorExpr); ok && se.Sel.Name == "Reset" && len(c.Args) == 0 {
+										if id, ok := se.X.(*ast.Ident); ok && info.Uses[id] == info.Defs[vID] {
+											okShape = true
+										}
+									}
+								}
+							}
+						}
+					} else if is.Init == nil {
+						okShape = false
+					}
+					r.Ob("D9", "Unmarshal :: the destination is reset when it can be", prog.Pos(is.Pos()), okShape,
+						"expected `if r, ok := msg.(interface{ Reset() }); ok { r.Reset() }`: the reset must run exactly for the values that have a Reset method (found: "+cutTo(nodeString(is), 100)+")")
 					continue
 				}
 			}
